@@ -1807,7 +1807,10 @@ pub fn generate(seed: u64) -> Workload {
         (bytes, ib, ib + t, ib + ro, ib + d)
     } else {
         let bytes = elf::build_exec(&spec);
-        let ib = if pie { 0x100000u64 } else { p.base };
+        // some position-independent 64-bit images are placed across the 4 GiB line, so that the
+        // addresses of one program are spelled with different widths (8 and 9 hex digits);
+        // derived from the workload seed without a draw
+        let ib = if pie && p.ptr == 8 && seed % 4 == 3 { 0xffff_e000u64 } else if pie { 0x100000u64 } else { p.base };
         let (ro, d) = elf::layout(&spec);
         (bytes, ib, ib, ib + (ro - spec.base), ib + (d - spec.base))
     };
